@@ -53,6 +53,18 @@ def removeOk (S : List Elem) (x : Elem) : Bool :=
 def checkRemove (U : List Elem) : Bool :=
   (subsets U).all fun S => decide (S.length ≥ 8) || U.all fun x => removeOk S x
 
+/-- `add_alt` (look-up, then insertion) is set insertion; a full table refuses a new element -/
+def addAltOk (S : List Elem) (x : Elem) : Bool :=
+  if S.contains x || decide (S.length + 1 < 8) then
+    okEq (QF.addAlt 1 (layout 3 false S) (enc 3 x)) (layout 3 false (insert x S))
+  else
+    match QF.addAlt 1 (layout 3 false S) (enc 3 x) with
+    | .error .qfError => true
+    | _ => false
+
+def checkAddAlt (U : List Elem) : Bool :=
+  (subsets U).all fun S => decide (S.length ≥ 8) || U.all fun x => addAltOk S x
+
 /-- the subsets of `U` are closed under inserting and erasing elements of `U`, and are canonical -/
 def checkClosed (U : List Elem) : Bool :=
   (subsets U).all fun S => decide (S.length ≥ 8) || (decide (Canon 3 S) &&
